@@ -499,6 +499,11 @@ pub fn wframe_from_json(v: &serde_json::Value) -> Result<WFrame, String> {
 /// Encode a frame for `POST /import` the way the docs describe the export format
 /// (one JSON object per frame), built by hand.
 pub fn frame_json_for_import(spec: &FrameSpec) -> String {
+    frame_json_for_import_opt(spec, false)
+}
+
+/// `sparse`: leave out the optional top-level fields that are null.
+pub fn frame_json_for_import_opt(spec: &FrameSpec, sparse: bool) -> String {
     let mut m = serde_json::Map::new();
     m.insert("topic".into(), serde_json::Value::String(spec.topic.clone()));
     m.insert(
@@ -530,6 +535,13 @@ pub fn frame_json_for_import(spec: &FrameSpec) -> String {
             .map(|t| serde_json::Value::String(t.spelling()))
             .unwrap_or(serde_json::Value::Null),
     );
+    if sparse {
+        for k in ["hash", "ttl"] {
+            if m.get(k).map(|v| v.is_null()).unwrap_or(false) {
+                m.remove(k);
+            }
+        }
+    }
     print_json(&serde_json::Value::Object(m))
 }
 
